@@ -84,6 +84,13 @@ fn gen_history(rng: &mut Rng, m: &mut GModel, huge: bool) -> Vec<String> {
                 1 => 8 * rng.below(6) as usize,
                 _ => rng.below((3 * vc.min(700) + 1) as u64) as usize,
             };
+            // a third of the replacements keep the mesh's vertex and index counts (same-size
+            // geometry whose position in the LOD's buffers still moves when a neighbour resizes)
+            let (vc, ni) = if rng.chance(1, 3) {
+                (m.lods[l].meshes[d].vcount as usize, m.lods[l].meshes[d].indices.len())
+            } else {
+                (vc, ni)
+            };
             new_vc.push(vc);
             new_ni.push(ni);
         }
